@@ -104,6 +104,16 @@ def s2(ck, an):
     for s in cs:
         v = s.value if isinstance(s, ast.Assign) else None
         k = ast.unparse(v) if v is not None else "?"
+        if v is not None and not isinstance(v, (ast.Call, ast.ListComp)):
+            # through temporaries: by value id
+            kid = fi.sym.canon(v, fi.node_of(s).id)
+            gen = fi.sym.canon(ast.parse("[future_cls(q.year, q.month) for q in pd.date_range(start, end, freq=future_cls.freq)]", mode="eval").body, fi.node_of(s).id)
+            if kid == "sorted(contracts)":
+                ck.ok("IDIOM", "S2.given-contracts-sorted", subj, fi.loc(s), "contracts given by the user are sorted with Future.__lt__", construct=stmt_text(s))
+                continue
+            if kid == gen:
+                ck.ok("IDIOM", "S2.generated-contracts-increasing", subj, fi.loc(s), "generated contracts follow an increasing pandas.date_range(start, end, freq=future_cls.freq), one per period", construct=stmt_text(s))
+                continue
         if isinstance(v, ast.Call) and ast.unparse(v.func) == "sorted":
             ok = len(v.args) == 1 and not v.keywords and ast.unparse(v.args[0]) == "contracts"
             ck.check(ok, "IDIOM", "S2.given-contracts-sorted", subj, fi.loc(s), "contracts given by the user are sorted with Future.__lt__", f"contracts = {k}", construct=stmt_text(s))
